@@ -12,7 +12,7 @@ RULE = ('integers: every n in windows around 10^k (k<=17), 2^53, every digit-len
         '(each value is an independent input of a pure function)')
 ASSUMPTIONS = ['negative amounts are formatting-only (the parser grammar has no sign): round trip asked for n>=0',
                'non-ASCII decimal digits accepted by \\d are logged, not judged']
-REQUIRED_HITS = ['T1.checked', 'T2.checked', 'T3.reject_checked', 'T3.accept_checked']
+REQUIRED_HITS = ['T1.checked', 'T2.checked', 'T3.reject_checked', 'T3.accept_checked', 'T1.history_primed']
 MAXN = 21 * 10 ** 16
 COIN = 10 ** 8
 
@@ -43,6 +43,8 @@ def gen_cases(rng, tier, shard, nshards):
     nstr = 40 if tier == 'quick' else 600
     for j in range(nstr):
         yield {'fam': 'str', 'seed': rng.getrandbits(48), 'count': 500}
+    for j in range(6 if tier == 'quick' else 200):
+        yield {'fam': 'hist', 'seed': rng.getrandbits(48), 'count': 400}
     if shard == 0:
         yield {'fam': 'strfixed'}
 
@@ -229,6 +231,30 @@ def execute(rec, case):
             rec.case(b'i%d' % mag)
             check_int(rec, mag, util.satoshis_to_coins, util.coins_to_satoshis)
             check_int(rec, -mag, util.satoshis_to_coins, util.coins_to_satoshis)
+    elif fam == 'hist':
+        # T1 again, as a property of a *history*: the text for an integer may not depend on what the same process converted before
+        # (seeded break C20-K memoised the formatter on its raw argument, so a float / Decimal / bool that compares equal to a large
+        # integer - the rounded float path - answered for the integer afterwards).  The primers' own results are not judged: the
+        # statement is about integer dewies
+        from fractions import Fraction
+        r = random.Random(case['seed'])
+        for _ in range(case['count']):
+            m = r.choice([r.randrange(2 ** 53, MAXN + 1), r.randrange(10 ** 16, MAXN + 1), 10 ** 17 + r.randrange(10 ** 6),
+                          r.randrange(MAXN + 1), r.randrange(3)])
+            n = int(float(m)) if r.random() < 0.8 else m          # mostly integers a float represents exactly (equal, same hash)
+            n = min(n, MAXN)
+            primers = r.sample([float(n), Decimal(n), Fraction(n), bool(n) if n < 2 else float(n + 1), float(n) + 0.0, str(n), n], 3)
+            for f in (dewies_to_lbc, util.satoshis_to_coins):
+                for x in primers:
+                    try:
+                        f(x)
+                    except Exception:  # noqa
+                        rec.log('hist.primer_raised')
+                    rec.hit('T1.history_primed')
+            rec.case(b'h%d' % n)
+            check_int(rec, n, dewies_to_lbc, lbc_to_dewies)
+            check_int(rec, n, util.satoshis_to_coins, util.coins_to_satoshis)
+            check_int(rec, -n, util.satoshis_to_coins, util.coins_to_satoshis)
     elif fam == 'str':
         r = random.Random(case['seed'])
         for _ in range(case['count']):
